@@ -48,6 +48,8 @@ package formatter
 //@   ensures [C05:indent_first] hasprefix(result, indent)
 //@   ensures [C04,C05:two_blanks] posting.Amount != nil ==> (forall n int :: {result[n]} AcctEnd(posting, indent, n) ==> len(result) >= n + 2 && result[n] == ' ' && result[n + 1] == ' ')
 //@   ensures [C05:amount_column] posting.Amount != nil && alignAmounts && alignment.AccountCol > 0 ==> spaces__1 == ite(alignment.AccountCol - rcount(AcctText(posting, indent)) >= 2, alignment.AccountCol - rcount(AcctText(posting, indent)), 2)
+//@   ensures [C04:symbol_leads_amount] posting.Amount != nil && posting.Amount.Commodity.Position == 0 && len(posting.Amount.Commodity.Symbol) > 0 ==> (forall n int :: {result[n + spaces__1]} AcctEnd(posting, indent, n) ==> result[n + spaces__1] == posting.Amount.Commodity.Symbol[0] || ((result[n + spaces__1] == '-' || result[n + spaces__1] == '+') && result[n + spaces__1 + 1] == posting.Amount.Commodity.Symbol[0]))
+//@   ensures [C04:cost_kept] posting.Amount == nil && posting.Cost != nil ==> (forall n int :: {result[n]} AcctEnd(posting, indent, n) ==> len(result) >= n + 3 && result[n] == ' ' && result[n + 1] == '@' && (result[n + 2] == ' ' || result[n + 2] == '@'))
 //@ trusted CalculateAlignmentWithGlobal
 //@   effects none
 //@   ensures result.AccountCol == accountCol
